@@ -22,7 +22,7 @@ extern "C" int __lsan_do_recoverable_leak_check();
 using namespace vh;
 
 namespace {
-struct Tally { long long exact_fills = 0, threshold = 0, factory_calls = 0, strings = 0, string_bytes = 0, pools = 0, printed_bytes = 0, units = 0, regions = 0, steps = 0; };
+struct Tally { long long unit_names_read = 0, exact_fills = 0, threshold = 0, factory_calls = 0, strings = 0, string_bytes = 0, pools = 0, printed_bytes = 0, units = 0, regions = 0, steps = 0; };
 
 // the workload of one Lexicon life; everything it allocates dies with this scope
 void one_life(std::uint64_t seed, int flavour, Tally& T)
@@ -107,11 +107,18 @@ void one_life(std::uint64_t seed, int flavour, Tally& T)
          auto& mod = modules.back();
          mod.stems.components.push_back(&lex.get_identifier(widen("mod" + std::to_string(m))));
          int nu = 1 + int(rng.below(12));
-         for (int u = 0; u < nu; ++u) { auto* mu = mod.make_unit(); mu->global_scope()->make_var(lex.get_identifier(u8"x"), L.int_type()); mu->global_region()->make_subregion(); ++T.units; }
+         for (int u = 0; u < nu; ++u) { auto* mu = mod.make_unit(); mu->global_scope()->make_var(lex.get_identifier(u8"x"), L.int_type()); mu->global_region()->make_subregion(); ++T.units;
+            if (auto id = util::view<Identifier>(mu->global_namespace().name())) { volatile std::size_t k = id->string().characters().size(); (void)k; ++T.unit_names_read; } }
+         if (auto id = util::view<Identifier>(mod.iface.global_namespace().name())) { volatile std::size_t k = id->string().characters().size(); (void)k; ++T.unit_names_read; }
          mod.iface.global_scope()->make_var(lex.get_identifier(u8"exported"), L.int_type());
       }
       std::list<impl::Translation_unit> more;
       for (int u = 0; u < 5; ++u) { more.emplace_back(lex); more.back().global_scope()->make_typedecl(lex.get_identifier(u8"T"), L.class_type()); ++T.units; }
+   }
+   // what every unit of this life is named by (nodes the unit itself fetched from the Lexicon when it was built)
+   {
+      auto touch_name = [&](const ipr::Translation_unit& u) { auto& n = u.global_namespace().name(); if (auto id = util::view<Identifier>(n)) { volatile std::size_t k = id->string().characters().size(); (void)k; } volatile auto c = u.global_namespace().type().category; (void)c; ++T.unit_names_read; };
+      touch_name(unit);
    }
    T.printed_bytes += (long long)os.str().size();
 }
@@ -233,9 +240,9 @@ static void body(Ctx& C)
       if (C.total_viols >= 12 && i >= 3) { C.count("stopped_early_after_repeated_violations"); break; }
    }
    C.count("factory_calls", T.factory_calls); C.count("strings_interned", T.strings); C.count("string_bytes", T.string_bytes); C.count("string_pools_at_destruction", T.pools);
-   C.count("printed_bytes", T.printed_bytes); C.count("extra_units_and_module_units", T.units); C.count("nested_regions", T.regions); C.count("program_steps", T.steps); C.count("strings_at_allocator_threshold_lengths", T.threshold); C.count("lives_filling_string_pools_exactly", T.exact_fills);
+   C.count("printed_bytes", T.printed_bytes); C.count("extra_units_and_module_units", T.units); C.count("nested_regions", T.regions); C.count("program_steps", T.steps); C.count("strings_at_allocator_threshold_lengths", T.threshold); C.count("lives_filling_string_pools_exactly", T.exact_fills); C.count("unit_names_read", T.unit_names_read);
    for (auto k : { "lexicon_lives", "factory_calls", "strings_interned", "string_pools_at_destruction", "printed_bytes", "extra_units_and_module_units", "nested_regions", "program_steps" }) C.need(k);
-   C.need("overlapping_lexicon_pairs"); C.need("lives_filling_string_pools_exactly");
+   C.need("overlapping_lexicon_pairs"); C.need("lives_filling_string_pools_exactly"); C.need("unit_names_read");
    if (!valgrind_mode) { C.need("byte_accounting_checks"); C.need("lsan_checks"); }
 }
 
